@@ -5,7 +5,7 @@ PROP = dict(
         ns='IcyVerif.C18',
         theorems=['attr_dec_enc', 'attr_enc_dec', 'attr_enc_dec_bold', 'attr_enc_dec_exact', 'attr_dec_expressible',
                   'pinned_unlimited_defect', 'pinned_defect_exact',
-                  'cp437_rt', 'atascii_rt', 'typed_rt', 'typed_rt_list', 'petscii_table_rt'],
+                  'cp437_rt', 'atascii_rt', 'typed_rt', 'typed_code', 'typed_rt_list', 'petscii_table_rt'],
         harness='c18',
         design='DESIGN.md §4 C18',
         thorough_exhaustive=True,
